@@ -2,8 +2,9 @@
 
 The hash seed can only be chosen per interpreter, so every batch of cases is executed in
 several fresh child interpreters; each child is a pure function of its spec.  Seeded
-dimensions: PYTHONHASHSEED, heap layout (junk allocations), directory listing order of the
-snippets (scandir seam), output directory location and history, position in the process.
+dimensions: PYTHONHASHSEED, heap layout (junk allocations, scrambled free lists), directory
+listing order of the snippets (scandir seam), output directory location and history, position
+in the process, simulated wall clock (years apart) and environment (TZ, LANG, USER, HOME, HOSTNAME).
 """
 from __future__ import annotations
 
@@ -82,7 +83,7 @@ def describe() -> dict:
             "3 (quick) / 12 (thorough) fresh interpreters that differ in PYTHONHASHSEED, heap "
             "junk, snippets listing order, output-dir location (plain/deep/space+unicode/"
             "relative/beneath the snippets dir), output-dir history (absent/empty/foreign files/same-named files that are longer, "
-            "identical, equal up to CRLF / CR / trailing blanks, or not UTF-8) and position of the case in the process; compared: rc, stdout up to the "
+            "identical, equal up to CRLF / CR / trailing blanks, or not UTF-8), position of the case in the process, simulated wall clock (time/datetime seams, epochs years apart) and environment (TZ, LANG, USER, HOME, HOSTNAME); compared: rc, stdout up to the "
             "output path, stderr, sha256 of every file the run wrote; one evaluation = one execution of a case in one interpreter. distinct = distinct "
             "cases whose results were compared across >= 2 interpreters."
         ),
@@ -123,6 +124,7 @@ def gen_plan(seed: int, run: int, tier: str) -> dict:
             "pos_seed": rng.randrange(1 << 30),
             "loc_seed": rng.randrange(1 << 30),
             "hist_seed": rng.randrange(1 << 30),
+            "env_seed": rng.randrange(1 << 30),
         })
     return {"engine": "determinism", "seed": seed, "run": run, "cases": cases,
             "children": children}
@@ -156,8 +158,25 @@ def child_main(spec_path: str) -> int:
     """Runs in a fresh interpreter: execute every case of the spec, print the results."""
     with open(spec_path, encoding="utf-8") as f:
         spec = json.load(f)
-    repo.activate()
     child = spec["child"]
+    # clock and environment of this "machine": installed before the code under test is
+    # imported, so that `from datetime import datetime` binds the simulated class as well
+    kernel.install_seams()
+    env_rng = random.Random(child.get("env_seed", 0))
+    os.environ["TZ"] = env_rng.choice(["UTC", "Europe/Zurich", "Asia/Tokyo", "America/New_York"])
+    try:
+        import time as _time
+
+        _time.tzset()
+    except Exception:
+        pass
+    os.environ["LANG"] = env_rng.choice(["C", "C.UTF-8", "en_US.UTF-8", "de_CH.UTF-8"])
+    os.environ["LC_ALL"] = os.environ["LANG"]
+    os.environ["USER"] = os.environ["LOGNAME"] = env_rng.choice(["root", "alice", "build-bot"])
+    os.environ["HOME"] = "/home/" + os.environ["USER"]
+    os.environ["HOSTNAME"] = env_rng.choice(["ci-01", "laptop", "node-7f3a"])
+    epoch = 1_600_000_000.0 + env_rng.randrange(0, 200_000_000)
+    repo.activate()
     cases = spec["cases"]
     junk_rng = random.Random(child["junk"])
     junk: List[Any] = []
@@ -254,7 +273,7 @@ def child_main(spec_path: str) -> int:
             else:
                 out_arg = out_abs
             sim = kernel.Sim(sb, seed_text=f"{child['order_seed']}:{idx}", sched_roles=(),
-                             fault_roles=(), shuffle_listing=True)
+                             fault_roles=(), shuffle_listing=True, epoch=epoch + 86400.0 * pos)
             box: Dict[str, repo.RunResult] = {}
 
             def fn() -> None:
@@ -403,7 +422,7 @@ def reductions(plan: dict) -> Iterator[dict]:
             p["children"] = [ch[0], ch[j]]
             yield p
     if len(ch) == 2:
-        for dim in ("hashseed", "junk", "order_seed", "pos_seed", "loc_seed", "hist_seed"):
+        for dim in ("hashseed", "junk", "order_seed", "pos_seed", "loc_seed", "hist_seed", "env_seed"):
             if ch[0][dim] != ch[1][dim]:
                 p = copy.deepcopy(plan)
                 p["children"][1][dim] = ch[0][dim]
